@@ -1,4 +1,4 @@
-import Prom.Model.Conc
+import Prom.Lemmas.Guard
 /-
 C01 — Counter increments are never lost and never go backwards.
 (C11 shares the machine; see `Props/C11.lean`.)
@@ -13,64 +13,382 @@ checked to be accepted runs of exactly this machine.
 namespace Prom.C01
 open Prom Prom.Conc
 
-/-- the ghost log of committed writes always ends in the cell's current value: the value is the
-    result of the committed writes in commit order (for `u64` / exact arithmetic: the sum of all
-    increments since the last reset), for every accepted run -/
-def LogInv (s : ASt) : Prop := s.log = [] ∧ s.mem = 0 ∨ ∃ t r, s.log = (t, s.mem) :: r
+/-- run the sequential specification over a commit log, checking every recorded return value;
+    `some v` = the log is a legal sequential history ending in the value `v` -/
+def specRun (float : Bool) : UInt64 → List LinEv → Option UInt64
+  | v, [] => some v
+  | v, l :: r =>
+    match specApply float v l.op with
+    | some (v', rv) => if rv = l.rv then specRun float v' r else none
+    | none => none
 
-theorem aStep_logInv (s s' : ASt) (e : Ev) (hi : LogInv s) (h : aStep s e = .ok s') : LogInv s' := by
-  unfold aStep at h
-  cases hth : s.ths[e.tid]? with
-  | none => rw [hth] at h; cases h
-  | some th =>
-    rw [hth] at h
-    simp only [] at h
-    cases hpc : th.pc with
-    | none => rw [hpc] at h; cases h
-    | some pc =>
-      rw [hpc] at h
-      simp only [] at h
+theorem specRun_append (float : Bool) (v : UInt64) (l : List LinEv) (x : LinEv) :
+    specRun float v (l ++ [x]) = (specRun float v l).bind fun v' => specRun float v' [x] := by
+  induction l generalizing v with
+  | nil => simp [specRun]
+  | cons a r ih =>
+    simp only [List.cons_append, specRun]
+    split
+    · split
+      · exact ih _
+      · rfl
+    · rfl
+
+/-- the cell holds the value the sequential specification reaches by running the committed
+    operations in commit order, and every committed operation returned what the specification returns
+    at that point -/
+def LinInv (s : ASt) : Prop := specRun s.float 0 s.lin = some s.mem
+
+/-- an event that completes its call takes effect as the specification says, on the *current* value -/
+theorem aEv_commit {float : Bool} {mem : UInt64} {op : String} {pc : APc} {e : Ev} {mem' : UInt64} {rv : String}
+    (h : aEv float mem op pc e = .ok (mem', .inr rv)) : specApply float mem op = some (mem', rv) := by
+  unfold aEv at h
+  simp only at h
+  split at h
+  · cases h
+  · cases pc with
+    | start =>
+      simp only at h
+      unfold specApply
+      simp only
+      split at h
+      · next hg =>
+        rw [guard_ok] at h; obtain ⟨_, h⟩ := h; cases h
+        simp [hg]
+      · next hg =>
+        split at h
+        · next hs =>
+          rw [guard_ok] at h; obtain ⟨_, h⟩ := h; cases h
+          simp [hg, hs]
+        · next hs =>
+          split at h
+          · next hf =>
+            split at h
+            · cases h
+            · rw [guard_ok] at h; obtain ⟨_, h⟩ := h; cases h
+          · next hf =>
+            rw [guard_ok] at h; obtain ⟨_, h⟩ := h; cases h
+            simp [hg, hs, hf]
+    | cas cur =>
+      simp only at h
       split at h
       · cases h
-      · cases pc with
-        | start op =>
-          simp only [] at h
-          repeat' split at h
-          all_goals first
-            | (simp only [Except.ok.injEq] at h; subst h
-               first
-                 | exact hi
-                 | exact Or.inr ⟨_, _, rfl⟩
-                 | (exfalso; simp_all))
-            | cases h
-        | cas cur d =>
-          simp only [] at h
-          repeat' split at h
-          all_goals first
-            | (simp only [Except.ok.injEq] at h; subst h
-               first
-                 | exact hi
-                 | exact Or.inr ⟨_, _, rfl⟩
-                 | (exfalso; simp_all))
-            | cases h
+      · next d hd =>
+        rw [guard_ok] at h; obtain ⟨hg, h⟩ := h
+        simp only [Bool.and_eq_true, beq_iff_eq] at hg
+        split at h
+        · rw [guard_ok] at h; obtain ⟨hc, h⟩ := h
+          simp only [Bool.and_eq_true, beq_iff_eq] at hc
+          cases h
+          unfold specApply
+          have hfl : float = true := hg.1.1.1.1
+          have hng : (opName op == "get") = false := by
+            cases hh : opName op == "get"
+            · rfl
+            · simp only [beq_iff_eq] at hh; simp [floatDelta, hh] at hd
+          have hns : (opName op == "set" || opName op == "reset") = false := by
+            cases hh : (opName op == "set" || opName op == "reset")
+            · rfl
+            · simp only [Bool.or_eq_true, beq_iff_eq] at hh
+              rcases hh with hh | hh <;> simp [floatDelta, hh] at hd
+          simp [hng, hns, hfl, hd, hc.1]
+        · rw [guard_ok] at h; obtain ⟨_, h⟩ := h; cases h
 
-theorem aItem_logInv (s s' : ASt) (it : Item) (hi : LogInv s) (h : aItem s it = .ok s') : LogInv s' := by
+/-- an event that does not complete its call (the load of a float add, a failed compare-exchange)
+    leaves the cell as it was -/
+theorem aEv_continue {float : Bool} {mem : UInt64} {op : String} {pc : APc} {e : Ev} {mem' : UInt64} {pc' : APc}
+    (h : aEv float mem op pc e = .ok (mem', .inl pc')) : mem' = mem := by
+  unfold aEv at h
+  simp only at h
+  split at h
+  · cases h
+  · cases pc with
+    | start =>
+      simp only at h
+      split at h
+      · rw [guard_ok] at h; obtain ⟨_, h⟩ := h; cases h
+      · split at h
+        · rw [guard_ok] at h; obtain ⟨_, h⟩ := h; cases h
+        · split at h
+          · split at h
+            · cases h
+            · rw [guard_ok] at h; obtain ⟨_, h⟩ := h; cases h; rfl
+          · rw [guard_ok] at h; obtain ⟨_, h⟩ := h; cases h
+    | cas cur =>
+      simp only at h
+      split at h
+      · cases h
+      · rw [guard_ok] at h; obtain ⟨_, h⟩ := h
+        split at h
+        · rw [guard_ok] at h; obtain ⟨_, h⟩ := h; cases h
+        · rw [guard_ok] at h; obtain ⟨_, h⟩ := h; cases h; rfl
+
+
+def skipOp (op : String) : Bool := opName op == "lflush" && parseIntArg (opArg op) == 0
+
+/-- the shape of an accepted item of the cell machine -/
+inductive AShape (s s' : ASt) : Prop
+  /-- an event that completes its call: it takes effect now -/
+  | commit (e : Ev) (th : Th APc) (pc : APc) (rv : String) (mem' : UInt64)
+      (hth : s.ths[e.tid]? = some th) (hpc : th.pc = some pc)
+      (hev : aEv s.float s.mem (th.ops.getD th.idx "") pc e = .ok (mem', .inr rv))
+      (hs : s' = { s with mem := mem', ths := s.ths.set e.tid { th with pc := none, retv := some rv },
+                          lin := s.lin ++ [⟨e.tid, th.idx, th.ops.getD th.idx "", rv⟩] })
+  /-- an event after which the call continues (load of a float add, failed compare-exchange) -/
+  | cont (e : Ev) (th : Th APc) (pc pc' : APc)
+      (hth : s.ths[e.tid]? = some th) (hpc : th.pc = some pc)
+      (hs : s' = { s with ths := s.ths.set e.tid { th with pc := some pc' } })
+  /-- a call mark -/
+  | callSkip (t : Nat) (th : Th APc) (hth : s.ths[t]? = some th) (hpc : th.pc = none) (hrv : th.retv = none)
+      (hsk : skipOp (th.ops.getD th.idx "") = true)
+      (hs : s' = { s with ths := s.ths.set t { th with retv := some "" } })
+  | callOpen (t : Nat) (th : Th APc) (hth : s.ths[t]? = some th) (hpc : th.pc = none) (hrv : th.retv = none)
+      (hsk : skipOp (th.ops.getD th.idx "") = false)
+      (hs : s' = { s with ths := s.ths.set t { th with pc := some .start } })
+  /-- a return mark -/
+  | ret (t : Nat) (th : Th APc) (rv : String) (hth : s.ths[t]? = some th) (hrv : th.retv = some rv)
+      (hs : s' = { s with ths := s.ths.set t { th with idx := th.idx + 1, retv := none } })
+
+theorem aItem_shape {s s' : ASt} {it : Item} (h : aItem s it = .ok s') : AShape s s' := by
   cases it with
-  | ev e => exact aStep_logInv s s' e hi h
+  | ev e =>
+    simp only [aItem, aStep] at h
+    split at h
+    · cases h
+    · next th hth =>
+      split at h
+      · cases h
+      · next pc hpc =>
+        split at h
+        · cases h
+        · next mem' pc' hev =>
+          cases h
+          have := aEv_continue hev; subst this
+          exact .cont e th pc pc' hth hpc rfl
+        · next mem' rv hev =>
+          cases h
+          exact .commit e th pc rv mem' hth hpc hev rfl
   | call t i op =>
     simp only [aItem] at h
     split at h
     · cases h
-    · split at h
-      · simp only [Except.ok.injEq] at h; subst h; exact hi
+    · next th hth =>
+      split at h
+      · next th' ho =>
+        cases h
+        unfold openCall at ho
+        split at ho
+        · cases ho
+        · next hopen =>
+          have hpc : th.pc = none := by cases hh : th.pc <;> simp_all
+          have hrv : th.retv = none := by cases hh : th.retv <;> simp_all
+          split at ho
+          · cases ho
+          · split at ho
+            · cases ho
+            · next hop =>
+              have hop' : th.ops.getD th.idx "" = op := by simpa using hop
+              subst hop'
+              split at ho
+              · next hsk =>
+                cases ho
+                exact .callSkip t th hth hpc hrv hsk rfl
+              · next hsk =>
+                cases ho
+                have : skipOp (th.ops.getD th.idx "") = false := by
+                  simpa [skipOp] using hsk
+                exact .callOpen t th hth hpc hrv this rfl
       · cases h
   | ret t i v =>
     simp only [aItem] at h
     split at h
     · cases h
-    · split at h
-      · simp only [Except.ok.injEq] at h; subst h; exact hi
+    · next th hth =>
+      split at h
+      · next th' hc =>
+        cases h
+        unfold closeCall at hc
+        split at hc
+        · cases hc
+        · next rv hrv =>
+          split at hc
+          · cases hc
+          · split at hc
+            · cases hc
+            · cases hc
+              exact .ret t th rv hth hrv rfl
       · cases h
   | other x => simp [aItem] at h
+
+theorem aItem_linInv {s s' : ASt} {it : Item} (hi : LinInv s) (h : aItem s it = .ok s') : LinInv s' := by
+  cases aItem_shape h with
+  | commit e th pc rv mem' hth hpc hev hs =>
+    subst hs
+    unfold LinInv at hi ⊢
+    simp only [specRun_append, hi, Option.bind_some, specRun, aEv_commit hev, if_true]
+  | cont e th pc pc' hth hpc hs => subst hs; exact hi
+  | callSkip t th hth hpc hrv hsk hs => subst hs; exact hi
+  | callOpen t th hth hpc hrv hsk hs => subst hs; exact hi
+  | ret t th rv hth hrv hs => subst hs; exact hi
+
+/-- number of commits of call `i` of thread `t` -/
+def commits (lin : List LinEv) (t i : Nat) : Nat := (lin.filter fun x => x.tid == t && x.idx == i).length
+
+theorem commits_append (lin : List LinEv) (x : LinEv) (t i : Nat) :
+    commits (lin ++ [x]) t i = commits lin t i + (if x.tid = t ∧ x.idx = i then 1 else 0) := by
+  unfold commits
+  rw [List.filter_append, List.length_append]
+  congr 1
+  by_cases h : x.tid = t ∧ x.idx = i
+  · simp [h]
+  · simp only [h, if_false]
+    have : (x.tid == t && x.idx == i) = false := by
+      simp only [not_and] at h
+      cases h1 : x.tid == t <;> simp_all
+    simp [List.filter_cons, this]
+
+/-- **exactly once**: every call that has returned took effect exactly once (a local flush of zero:
+    not at all, as in the code), the call in progress at most once — exactly once as soon as its last
+    step is done —, and no call that has not started took effect; a call's return value is the one
+    recorded with its commit -/
+structure OnceInv (s : ASt) : Prop where
+  wf : ∀ (t : Nat) (th : Th APc), s.ths[t]? = some th → (th.pc.isSome → th.retv = none ∧ skipOp (th.ops.getD th.idx "") = false)
+  cnt : ∀ (t : Nat) (th : Th APc), s.ths[t]? = some th → ∀ i, commits s.lin t i =
+      if i < th.idx then (if skipOp (th.ops.getD i "") then 0 else 1)
+      else if i = th.idx ∧ th.retv.isSome ∧ skipOp (th.ops.getD i "") = false then 1 else 0
+  rvs : ∀ (t : Nat) (th : Th APc) (rv : String), s.ths[t]? = some th → th.retv = some rv → skipOp (th.ops.getD th.idx "") = false →
+      (⟨t, th.idx, th.ops.getD th.idx "", rv⟩ : LinEv) ∈ s.lin
+
+theorem getElem?_set_cases {α} (l : List α) (i j : Nat) (a x : α) (h : (l.set i a)[j]? = some x) :
+    (j = i ∧ x = a) ∨ (j ≠ i ∧ l[j]? = some x) := by
+  rw [List.getElem?_set] at h
+  split at h
+  · next hij =>
+    split at h
+    · cases h; exact .inl ⟨hij.symm, rfl⟩
+    · cases h
+  · next hij => exact .inr ⟨fun e => hij e.symm, h⟩
+
+theorem aItem_onceInv {s s' : ASt} {it : Item} (I : OnceInv s) (h : aItem s it = .ok s') : OnceInv s' := by
+  cases aItem_shape h with
+  | commit e th pc rv mem' hth hpc hev hs =>
+    subst hs
+    have hw := I.wf e.tid th hth (by simp [hpc])
+    refine ⟨?_, ?_, ?_⟩
+    · intro t x hx hp
+      rcases getElem?_set_cases _ _ _ _ _ hx with ⟨_, rfl⟩ | ⟨_, hx⟩
+      · simp at hp
+      · exact I.wf t x hx hp
+    · intro t x hx i
+      simp only [commits_append]
+      rcases getElem?_set_cases _ _ _ _ _ hx with ⟨rfl, rfl⟩ | ⟨hne, hx⟩
+      · rw [I.cnt e.tid th hth i]
+        simp only [hw.1, Option.isSome_none, Bool.false_eq_true, false_and, and_false, if_false, true_and,
+          Option.isSome_some]
+        have hw2 : skipOp (th.ops[th.idx]?.getD "") = false := by simpa using hw.2
+        by_cases h1 : i < th.idx
+        · have : ¬ th.idx = i := by omega
+          simp [h1, this]
+        · by_cases h2 : i = th.idx
+          · subst h2; simp [hw2]
+          · have : ¬ th.idx = i := fun e => h2 e.symm
+            simp [h1, h2, this]
+      · rw [I.cnt t x hx i]
+        have : ¬ (e.tid = t ∧ th.idx = i) := fun hh => hne hh.1.symm
+        simp [this]
+    · intro t x rv' hx hrv hsk
+      rcases getElem?_set_cases _ _ _ _ _ hx with ⟨rfl, rfl⟩ | ⟨_, hx⟩
+      · simp only [Option.some.injEq] at hrv; subst hrv
+        simp
+      · exact List.mem_append_left _ (I.rvs t x rv' hx hrv hsk)
+  | cont e th pc pc' hth hpc hs =>
+    subst hs
+    have hw := I.wf e.tid th hth (by simp [hpc])
+    refine ⟨?_, ?_, ?_⟩
+    · intro t x hx hp
+      rcases getElem?_set_cases _ _ _ _ _ hx with ⟨_, rfl⟩ | ⟨_, hx⟩
+      · exact hw
+      · exact I.wf t x hx hp
+    · intro t x hx i
+      rcases getElem?_set_cases _ _ _ _ _ hx with ⟨rfl, rfl⟩ | ⟨_, hx⟩
+      · exact I.cnt e.tid th hth i
+      · exact I.cnt t x hx i
+    · intro t x rv' hx hrv hsk
+      rcases getElem?_set_cases _ _ _ _ _ hx with ⟨rfl, rfl⟩ | ⟨_, hx⟩
+      · exact I.rvs e.tid th rv' hth hrv hsk
+      · exact I.rvs t x rv' hx hrv hsk
+  | callSkip t0 th hth hpc hrv hsk hs =>
+    subst hs
+    have hsk' : skipOp (th.ops[th.idx]?.getD "") = true := by simpa using hsk
+    refine ⟨?_, ?_, ?_⟩
+    · intro t x hx hp
+      rcases getElem?_set_cases _ _ _ _ _ hx with ⟨_, rfl⟩ | ⟨_, hx⟩
+      · simp [hpc] at hp
+      · exact I.wf t x hx hp
+    · intro t x hx i
+      rcases getElem?_set_cases _ _ _ _ _ hx with ⟨rfl, rfl⟩ | ⟨_, hx⟩
+      · rw [I.cnt t th hth i]
+        by_cases h1 : i < th.idx
+        · simp [h1]
+        · by_cases h2 : i = th.idx
+          · subst h2; simp [hrv, hsk']
+          · simp [h1, h2]
+      · exact I.cnt t x hx i
+    · intro t x rv' hx hrv' hsk2
+      rcases getElem?_set_cases _ _ _ _ _ hx with ⟨rfl, rfl⟩ | ⟨_, hx⟩
+      · simp only at hsk2; rw [hsk] at hsk2; cases hsk2
+      · exact I.rvs t x rv' hx hrv' hsk2
+  | callOpen t0 th hth hpc hrv hsk hs =>
+    subst hs
+    refine ⟨?_, ?_, ?_⟩
+    · intro t x hx hp
+      rcases getElem?_set_cases _ _ _ _ _ hx with ⟨_, rfl⟩ | ⟨_, hx⟩
+      · exact ⟨hrv, hsk⟩
+      · exact I.wf t x hx hp
+    · intro t x hx i
+      rcases getElem?_set_cases _ _ _ _ _ hx with ⟨rfl, rfl⟩ | ⟨_, hx⟩
+      · exact I.cnt t th hth i
+      · exact I.cnt t x hx i
+    · intro t x rv' hx hrv' hsk2
+      rcases getElem?_set_cases _ _ _ _ _ hx with ⟨rfl, rfl⟩ | ⟨_, hx⟩
+      · simp [hrv] at hrv'
+      · exact I.rvs t x rv' hx hrv' hsk2
+  | ret t0 th rv hth hrv hs =>
+    subst hs
+    have hpcn : th.pc = none := by
+      cases hh : th.pc with
+      | none => rfl
+      | some pc => have := (I.wf t0 th hth (by simp [hh])).1; rw [this] at hrv; cases hrv
+    refine ⟨?_, ?_, ?_⟩
+    · intro t x hx hp
+      rcases getElem?_set_cases _ _ _ _ _ hx with ⟨_, rfl⟩ | ⟨_, hx⟩
+      · simp [hpcn] at hp
+      · exact I.wf t x hx hp
+    · intro t x hx i
+      rcases getElem?_set_cases _ _ _ _ _ hx with ⟨rfl, rfl⟩ | ⟨_, hx⟩
+      · rw [I.cnt t th hth i]
+        simp only [hrv, Option.isSome_some, true_and, Option.isSome_none, Bool.false_eq_true, false_and, and_false, if_false]
+        by_cases h1 : i < th.idx
+        · have : i < th.idx + 1 := by omega
+          simp [h1, this]
+        · by_cases h2 : i = th.idx
+          · subst h2
+            cases hsk : skipOp (th.ops[th.idx]?.getD "") <;> simp [hsk]
+          · have : ¬ i < th.idx + 1 := by omega
+            simp [h1, h2, this]
+      · exact I.cnt t x hx i
+    · intro t x rv' hx hrv' hsk
+      rcases getElem?_set_cases _ _ _ _ _ hx with ⟨rfl, rfl⟩ | ⟨_, hx⟩
+      · simp at hrv'
+      · exact I.rvs t x rv' hx hrv' hsk
+
+/-- the commit log only grows, at its end: the order in which operations took effect is never revised -/
+theorem aItem_lin_mono {s s' : ASt} {it : Item} (h : aItem s it = .ok s') : s.lin <+: s'.lin := by
+  cases aItem_shape h with
+  | commit e th pc rv mem' hth hpc hev hs => subst hs; exact List.prefix_append _ _
+  | cont e th pc pc' hth hpc hs => subst hs; exact List.prefix_refl _
+  | callSkip t th hth hpc hrv hsk hs => subst hs; exact List.prefix_refl _
+  | callOpen t th hth hpc hrv hsk hs => subst hs; exact List.prefix_refl _
+  | ret t th rv hth hrv hs => subst hs; exact List.prefix_refl _
 
 end Prom.C01
